@@ -9,6 +9,7 @@
              implementation iterates the live table there; see known_findings.json)
      code 11: a disagreement on a program of the class [RefScope.leaky] (a captured local that is
              not the top stack slot when its loop-body scope ends stays open: known finding)
+     code 12: a disagreement on a run in which a Get past the end met a table with a nil key
    Resource errors of the implementation (Timeout, Stackoverflow, CallStackOverflow,
    OutOfMemory) are not predicted: such cases are skipped (the harness counts them). *)
 From Cao Require Export CheckUtil CardAst RefSem RefScope.
@@ -106,7 +107,8 @@ Definition check1 (c : c01case) : list N :=
           match eval_program check_fuel m host with
           | PObs o' =>
               (if okind_eqb k (ob_kind o') && globals_agree g (ob_globals o') && log_eqb l (ob_log o')
-               then [] else if leaky m then [11] else [2])
+               then [] else if leaky m then [11]
+               else if existsb (N.eqb 12) (ob_notes o') then [12] else [2])
           | PFuel => [3]
           | PUnspec 12 => [10]
           | PUnspec _ => [3]
